@@ -209,7 +209,7 @@ def abort_case(case):
 
     def aborter(i):
       while s.park('aborter%d' % i):
-        log.append(('abort-enter', i, s.k))
+        log.append(('abort-enter', i, s.k, getattr(test, '_executor', None) is not None))
         try:
           test.abort_from_sig_int()
         except Exception as e:  # pylint: disable=broad-except
@@ -228,6 +228,16 @@ def abort_case(case):
         log.append(('abort-exit', 'sig', s.k))
 
     s.signal_handler = handler
+    if case.get('rerun'):
+      # the same Test object has completed a run before; the plan (abort injections) applies to the second execution
+      test.execute(test_start=ts)
+      del log[:]
+      del log.times[:]
+      del cbs[:]
+      off = s.k
+      plan2, signals2 = s.deferred
+      s.plan = {k + off: v for k, v in plan2.items()}
+      s.signals = {k + off: v for k, v in signals2.items()}
     ret, raised = None, None
     try:
       ret = test.execute(test_start=ts)
@@ -256,7 +266,11 @@ def run_case(case, trace=False):
       signals[int(k)] = 'sigint'
     else:
       plan[int(k)] = v
-  s = V.Scheduler(plan=plan, signals=signals, time_limit=1e5, max_steps=100000, trace=trace)
+  if case.get('rerun'):
+    s = V.Scheduler(plan={}, signals={}, time_limit=1e5, max_steps=200000, trace=trace)
+    s.deferred = (plan, signals)
+  else:
+    s = V.Scheduler(plan=plan, signals=signals, time_limit=1e5, max_steps=100000, trace=trace)
   fn = abort_case(case)
   res, exc = s.run(lambda: fn(s), watchdog_s=20.0)
   return s, res, exc
@@ -303,6 +317,12 @@ def check(case):
   unregistered = [e for e in log if e[0] == 'abort-enter' and len(e) > 3 and not e[3]]
   if unregistered and res['raised'] and not any(e[0] in ('start', 'plug-ctor') for e in log):
     r.classes.append('abort-before-registration')
+    r.nontrivial = False
+    return r, s
+  # an abort request that arrives before execute() has created its executor finds no running test: a no-op by design
+  early = [e for e in log if e[0] == 'abort-enter' and e[1] != 'sig' and len(e) > 3 and e[3] is False]
+  if early and len(enters) == len(early) and res['outcome'] != 'ABORTED':
+    r.classes.append('abort-before-executor')
     r.nontrivial = False
     return r, s
   # "the phase body running at that moment is asked to terminate": a killable non-teardown body that was running when
@@ -515,6 +535,10 @@ def plan(tier, seed):
   jobs = []
   for sh in range(4):
     jobs.append({'kind': 'real', 'name': 'real%d' % sh, 'shard': sh, 'nshards': 4})
+  for t in ('group', 'plain3'):
+    for via in ('signal', 'thread'):
+      jobs.append({'kind': 'sweep', 'name': 'rerun.%s.%s' % (t, via), 'template': t, 'via': via, 'rerun': True, 'stride': 3 if q else 1,
+                   'offset': seed % 3 if q else 0, 'pairs': 10 if q else 200, 'seed': seed})
   for ti, t in enumerate(TEMPLATES):
     for via in ('thread', 'signal'):
       jobs.append({'kind': 'sweep', 'name': 'sweep.%s.%s' % (t, via), 'template': t, 'via': via, 'stride': 3 if q else 1, 'offset': seed % 3 if q else 0,
@@ -551,9 +575,13 @@ def run_job(job, acct):
       (acct.known if sig in known else acct.violation)(sig, case, detail)
 
   base = {'template': job['template'], 'via': job['via'], 'plan': {}}
+  if job.get('rerun'):
+    base['rerun'] = True
   r0, s0 = check(base)
   record(base, r0)
   n = s0.k
+  if job.get('rerun'):
+    n = s0.k // 2 + 50      # plan indices are relative to the start of the second execution
   inj1 = ['wake', 'aborter0'] if job['via'] == 'thread' else 'SIGINT'
   inj2 = ['wake', 'aborter1'] if job['via'] == 'thread' else 'SIGINT'
   ks = list(range(job['offset'], n, job['stride']))
